@@ -61,10 +61,49 @@ def strip_comments(text):
     return "\n".join(l for l in text.splitlines() if not l.lstrip().startswith("//"))
 
 
+ANYFN = re.compile(r'\bfn\s+(\w+)\s*(?:<[^>{]*>)?\s*\(', re.S)
+ERR_TOKENS = ("new_error(", "update_last_error(", "safe_bool_call!")
+
+
+def helper_closure(d):
+    """Every `fn` of src/c_api/*.rs (extern or not) with the text of its body, and the two facts the inventory needs
+    about a body — it reports an error / it mentions a given sentinel — closed under calls to functions of these
+    files: a body that delegates to a private helper (`text_arg(val)?`) inherits what the helper's body does."""
+    bodies = {}
+    for f in sorted(os.listdir(d)):
+        if not f.endswith(".rs"):
+            continue
+        text = strip_comments(open(os.path.join(d, f), encoding="utf-8").read().replace("\r\n", "\n"))
+        for m in ANYFN.finditer(text):
+            i = text.find("{", m.end())
+            semi = text.find(";", m.end())
+            if i < 0 or (0 <= semi < i):
+                continue
+            bodies.setdefault(m.group(1), "")
+            bodies[m.group(1)] += body_of(text, i + 1)
+    calls = {n: {c for c in bodies if c != n and re.search(r"\b" + re.escape(c) + r"\s*\(", b)} for n, b in bodies.items()}
+
+    def reach(name):
+        seen, todo = set(), [name]
+        while todo:
+            x = todo.pop()
+            if x in seen:
+                continue
+            seen.add(x)
+            todo += list(calls.get(x, ()))
+        return seen
+
+    def mentions(name, needles):
+        return any(any(t in bodies.get(x, "") for t in needles) for x in reach(name))
+
+    return mentions
+
+
 def main():
     repo, outdir = sys.argv[1], sys.argv[2]
     d = os.path.join(repo, "src", "c_api")
     fns = []
+    mentions = helper_closure(d)
     for f in sorted(os.listdir(d)):
         if not f.endswith(".rs"):
             continue
@@ -89,12 +128,13 @@ def main():
                 fail(f"{f}: {name}: unknown return type `{ret_s}`")
             rc, sen, needle = RET_CLASS[ret_s]
             body = body_of(text, m.end())
-            if needle is not None and needle not in body:
-                fail(f"{f}: {name}: returns `{ret_s}` but its body never mentions the sentinel `{needle}`")
+            if needle is not None and needle not in body and not mentions(name, (needle,)):
+                # the sentinel is fixed by the return type; that the failing paths return it is decided on the real code
+                # by the null-argument and failure cases of C17/C18 — a body that does not spell it is only noted
+                print(f"DRIFT capi: {f}: {name} returns `{ret_s}` but neither its body nor a helper it calls spells the sentinel `{needle}`")
             # a void / Box function cannot report through its result; it may only report through last_error
             fns.append({"name": name, "file": f, "params": params, "ret": rc, "ret_rs": ret_s, "sentinel": sen,
-                        "sets_error": ("new_error(" in body or "update_last_error(" in body or "safe_bool_call!" in body
-                                       or "haystack_value_make_utc_datetime(" in body)})
+                        "sets_error": mentions(name, ERR_TOKENS)})
     names = [x["name"] for x in fns]
     if len(set(names)) != len(names):
         fail("duplicate function names")
